@@ -549,7 +549,7 @@ func (it *Interp) errString(iv *IfaceV) *StrV {
 	if iv.T == fsErrT {
 		return iv.V.(*FSErr).msg
 	}
-	m := it.prog.LookupMethod(iv.T, nil, "Error")
+	m := it.safeLookup(iv.T, nil, "Error")
 	if m == nil {
 		return nil
 	}
@@ -572,7 +572,7 @@ func (it *Interp) unwrapErr(iv *IfaceV) Value {
 	if iv.T == runtimeErrT || iv.T == fsErrT {
 		return &IfaceV{}
 	}
-	m := it.prog.LookupMethod(iv.T, nil, "Unwrap")
+	m := it.safeLookup(iv.T, nil, "Unwrap")
 	if m == nil {
 		return &IfaceV{}
 	}
@@ -681,11 +681,11 @@ func (it *Interp) callMethod(recv *IfaceV, name string, args ...Value) Value {
 	if h := it.engineMethod(recv, name); h != nil {
 		return it.callValue(h, args, nil)
 	}
-	m := it.prog.LookupMethod(recv.T, nil, name)
+	m := it.safeLookup(recv.T, nil, name)
 	if m == nil {
 		// unexported methods need the package; search by type's package
 		if named, ok := derefNamed(recv.T); ok && named.Obj().Pkg() != nil {
-			m = it.prog.LookupMethod(recv.T, named.Obj().Pkg(), name)
+			m = it.safeLookup(recv.T, named.Obj().Pkg(), name)
 		}
 	}
 	if m == nil {
